@@ -185,7 +185,10 @@ class Parser:
             op = self.eat()
             return ("asg", op, lhs, self.assign())
         if self.at("op", "?"):
-            raise Refuse(f"{self.fn}: conditional operator")
+            self.eat()
+            a = self.assign()
+            self.eat("op", ":")
+            return ("tern", lhs, a, self.assign())
         return lhs
 
     def binary(self, minp):
@@ -351,7 +354,7 @@ class Parser:
         """declaration `T [*] name [= e];` / `char name[N] = "lit";` or an expression statement (both eat the ';')"""
         if self.at("id") and self.peek()[1] in TYPE_WORDS:
             ty = []
-            while (self.at("id") and self.peek()[1] in TYPE_WORDS) or self.at("op", "*"):
+            while (self.at("id") and self.peek()[1] in TYPE_WORDS) or self.at("op", "*") or self.at("op", "&"):
                 ty.append(self.eat())
             name = self.eat("id")
             dim = None
@@ -1167,6 +1170,135 @@ def escape_plain(src):
     return v
 
 
+RE_ESC_LOOP = re.compile(r"for\(const char\*\s*i = str,\s*\*\s*end = i \+ str\.length\(\);\s*i < end;\s*\+\+i\)\s*\{")
+
+
+def escape_body(src):
+    """the body of the loop of escapeString as a function (attributeValue, c) -> bytes appended to the output.
+    `*(dest++) = x` appends x; `Memory::copy(dest, (const char*)S, S.length() * sizeof(char)); dest += S.length();` appends S;
+    the statements from `result.resize(dest - destStart);` to `dest = destStart + result.length();` re-seat the buffer and leave
+    the written bytes alone (their capacity arithmetic is translated separately: reserve policy, EscapeMem.lean)."""
+    body = function_body(src, r"String\s+Xml::Private::escapeString\(const String&\s*str,\s*bool\s+attributeValue\)", "escapeString")
+    body = strip_comments(body)
+    ms = list(RE_ESC_LOOP.finditer(body))
+    if len(ms) != 1:
+        raise Refuse("escapeString: the loop `for(const char* i = str, * end = i + str.length(); i < end; ++i)` not found")
+    depth, i = 0, ms[0].end() - 1
+    j = i
+    while True:
+        if body[j] in "\"'":
+            q = body[j]
+            j += 1
+            while body[j] != q:
+                j += 2 if body[j] == "\\" else 1
+        elif body[j] == "{":
+            depth += 1
+        elif body[j] == "}":
+            depth -= 1
+            if depth == 0:
+                break
+        j += 1
+    if body[j + 1:].replace(" ", "").replace("\n", "") != "result.resize(dest-destStart);returnresult;":
+        raise Refuse("escapeString: statements behind the loop other than `result.resize(dest - destStart); return result;`")
+    stmts = parse_body(body[i + 1:j], "escapeString")
+    if not stmts or stmts[0] != ("expr", ("asg", "=", ("id", "c"), ("un", "*", ("id", "i")))):
+        raise Refuse("escapeString: the loop body does not start with `c = *i;`")
+    c = Compiler("escapeString")
+    FIND = "Generated.escapeChars.findIdx? (· == c)"
+
+    def pure(e):
+        out = []
+        v = c.as_bool(c.ev(e, Env({"c": ("char", "c"), "attributeValue": ("bool", "attr")}, {}, set()), out))
+        if out:
+            raise Refuse("escapeString: a condition reads memory")
+        return v
+
+    def mentions(e, name):
+        if e == ("id", name):
+            return True
+        return any(mentions(x, name) for x in e if isinstance(x, tuple)) or \
+            any(mentions(y, name) for x in e if isinstance(x, list) for y in x if isinstance(y, tuple))
+
+    def bytes_of(e, st):
+        if e[0] == "tern" and e[1] == ("id", "escapeChar"):
+            if st["esc"] in (None, "unknown"):
+                raise Refuse("escapeString: `escapeChar ? … : …` where it is not known whether escapeChar is null")
+            return bytes_of(e[2] if st["esc"] != "none" else e[3], st)
+        if e[0] == "idx" and e[1] == ("id", "escapeStrings") and e[2] == ("bin", "-", ("id", "escapeChar"), ("id", "escapeChars")):
+            if st["esc"] in (None, "unknown", "none"):
+                raise Refuse("escapeString: escapeStrings[escapeChar - escapeChars] with a null / unknown escapeChar")
+            return f"(Generated.escapeStrings.getD {st['esc']} [])"
+        if e[0] == "idx" and e[1] == ("id", "lineBreakStrings"):
+            return f"(Generated.lineBreakStrings.getD (if {pure(e[2])} then 1 else 0) [])"
+        raise Refuse("escapeString: a String expression the translator does not know")
+
+    def render_out(st):
+        return " ++ ".join(st["out"]) if st["out"] else "[]"
+
+    def ex(stmts, st):
+        if not stmts:
+            return render_out(st)
+        s0, rest = stmts[0], stmts[1:]
+        k = s0[0]
+        if k == "block":
+            return ex(s0[1] + rest, st)
+        if k == "continue":
+            return render_out(st)
+        if k == "if":
+            _, cnd, th, el = s0
+            if mentions(cnd, "escapeChar"):
+                dis = []
+
+                def flat(x):
+                    if x[0] == "bin" and x[1] == "||":
+                        flat(x[2])
+                        flat(x[3])
+                    else:
+                        dis.append(x)
+                flat(cnd)
+                if dis[0] != ("id", "escapeChar") or any(mentions(x, "escapeChar") for x in dis[1:]) or st["esc"] != "unknown":
+                    raise Refuse("escapeString: a condition on escapeChar other than `escapeChar || …` right behind its definition")
+                r = None
+                for x in dis[1:]:
+                    r = x if r is None else ("bin", "||", r, x)
+                some = ex(th + rest, dict(st, esc="k", out=list(st["out"])))
+                none = ex(([("if", r, th, el)] if r is not None else el) + rest, dict(st, esc="none", out=list(st["out"])))
+                return f"(match {FIND} with\n  | some k => {some}\n  | none => {none})"
+            t = pure(cnd)
+            return (f"(if {t} then {ex(th + rest, dict(st, out=list(st['out'])))}\n   else {ex(el + rest, dict(st, out=list(st['out'])))})")
+        if k == "decl":
+            _, ty, name, init, dim = s0
+            if name == "escapeChar" and init == ("call", ("id", "String::find"), [("id", "escapeChars"), ("id", "c")]) and st["esc"] is None:
+                return ex(rest, dict(st, esc="unknown"))
+            if name == "escapeString" and "String" in ty and init is not None and st["str"] is None:
+                return ex(rest, dict(st, str=bytes_of(init, st)))
+            if "usize" in ty and dim is None:
+                return ex(rest, st)          # a size local of the buffer arithmetic: no written byte depends on it
+            raise Refuse(f"escapeString: declaration of '{name}'")
+        if k == "expr":
+            e = s0[1]
+            if e == ("call", ("mem", ("id", "result"), "resize"), [("bin", "-", ("id", "dest"), ("id", "destStart"))]):
+                last = ("expr", ("asg", "=", ("id", "dest"), ("bin", "+", ("id", "destStart"),
+                                                              ("call", ("mem", ("id", "result"), "length"), []))))
+                if last not in rest:
+                    raise Refuse("escapeString: `result.resize(dest - destStart);` without `dest = destStart + result.length();`")
+                return ex(rest[rest.index(last) + 1:], st)
+            if e[0] == "asg" and e[1] == "=" and e[2] == ("un", "*", ("post", "++", ("id", "dest"))):
+                if e[3] == ("id", "c"):
+                    return ex(rest, dict(st, out=st["out"] + ["[c]"]))
+                if e[3][0] == "chr":
+                    return ex(rest, dict(st, out=st["out"] + [f"[{e[3][1]}]"]))
+                raise Refuse("escapeString: a byte other than c or a constant is written")
+            ln = ("call", ("mem", ("id", "escapeString"), "length"), [])
+            if e == ("call", ("id", "Memory::copy"), [("id", "dest"), ("cast", ["const", "char", "*"], ("id", "escapeString")),
+                                                    ("bin", "*", ln, ("call", ("id", "sizeof"), [("id", "char")]))]) \
+                    and rest and rest[0] == ("expr", ("asg", "+=", ("id", "dest"), ln)) and st["str"]:
+                return ex(rest[1:], dict(st, out=st["out"] + [st["str"]]))
+            raise Refuse("escapeString: a statement of the loop body the translator does not know")
+        raise Refuse(f"escapeString: statement '{k}' in the loop body")
+    return ex(stmts[1:], {"esc": None, "str": None, "out": []})
+
+
 def run(repo):
     repo = Path(repo)
     try:
@@ -1196,6 +1328,9 @@ def run(repo):
                      f"def lineBreakStrings : List Bytes := [{', '.join(blist(x) for x in lbs)}]\n")
         parts.append("/-- escapeString: the test under which a byte is copied as it is (first `if` of the loop) -/\n"
                      f"def escapePlain (attr : Bool) (c : UInt8) : Bool :=\n  {escape_plain(srcc)}\n")
+        parts.append("/-- escapeString: the bytes ONE run of the loop body appends to the output for the input byte c (the loop runs over\n"
+                     "    every byte of the string in order: `for(const char* i = str, * end = i + str.length(); i < end; ++i)`) -/\n"
+                     f"def escapeString_body (attr : Bool) (c : UInt8) : Bytes :=\n  {escape_body(srcc)}\n")
         for fn, sig, lead in (("skipSpace", r"void\s+Xml::Private::skipSpace\(\)", None),
                               ("readToken", r"bool\s+Xml::Private::readToken\(\)", "skipSpace"),
                               ("parseText", r"bool\s+Xml::Private::parseText\(String&\s*text\)", None)):
